@@ -485,7 +485,7 @@ func (c *Client) validVirtualChannelProposal(prop *VirtualChannelProposalMsg, ou
 	}
 
 	if !prop.InitBals.Balances.Equal(prop.FundingAgreement) {
-		return errors.WithMessage(err, "unequal funding agreement")
+		return errors.New("unequal funding agreement")
 	}
 
 	numIndexMaps := len(prop.IndexMaps)
